@@ -111,18 +111,19 @@ func encodeBlock(all []byte, start, end int, dep bool, r *Rng) []byte {
 }
 
 type frameOpts struct {
-	bsCode      int // 4..7
-	blockSize   int // actual cut size (<= block maximum)
-	dep         bool
-	bc, cc      bool
-	size        int64 // -1 = none
-	rawEvery    int   // every k-th block stored raw (0 = never)
-	flgExtra    byte  // OR-ed into FLG (reserved/dict bits) before the checksum
-	bdExtra     byte
-	noEndMark   bool
-	badHC       bool
-	skipFrames  int // leading skippable frames
-	version     int // default 1
+	bsCode     int // 4..7
+	blockSize  int // actual cut size (<= block maximum)
+	dep        bool
+	bc, cc     bool
+	size       int64 // -1 = none
+	rawEvery   int   // every k-th block stored raw (0 = never)
+	flgExtra   byte  // OR-ed into FLG (reserved/dict bits) before the checksum
+	bdExtra    byte
+	noEndMark  bool
+	badHC      bool
+	skipFrames int  // leading skippable frames
+	version    int  // default 1
+	varBlocks  bool // blocks of varying sizes (each at most blockSize)
 }
 
 func le32b(x uint32) []byte { return []byte{byte(x), byte(x >> 8), byte(x >> 16), byte(x >> 24)} }
@@ -174,8 +175,15 @@ func buildFrame(content []byte, fo frameOpts, r *Rng) (frame []byte, fields []in
 		bs = 65536
 	}
 	nb := 0
-	for p := 0; p < len(content); p += bs {
-		e := p + bs
+	for p := 0; p < len(content); {
+		step := bs
+		if fo.varBlocks && r != nil {
+			step = 1 + r.Intn(bs)
+			if r.Intn(3) == 0 {
+				step = 1 + r.Intn(300)
+			}
+		}
+		e := p + step
 		if e > len(content) {
 			e = len(content)
 		}
@@ -204,6 +212,7 @@ func buildFrame(content []byte, fo frameOpts, r *Rng) (frame []byte, fields []in
 			frame = append(frame, le32b(refXXH32(payload))...)
 		}
 		nb++
+		p = e
 	}
 	if !fo.noEndMark {
 		fields = append(fields, len(frame))
